@@ -77,6 +77,8 @@ def r3(ctx, rep, res):
     rep.rule("C07-R3", "string validator coverage: every String stored into the AST from a quoted-string span passed the "
              "control-character validator (chars <= U+001F rejected)", floor=3)
     slots = res["slots"]
+    fx = {f["id"]: f for f in res["engine"]["facts"]}
+    grammar_admits_ctrl = any(fx.get("ctrl-in:" + r, {}).get("min_len", 0) >= 0 for r in ("string", "member_name_shorthand"))
     for lab in ("Selector::Name", "Literal::String", "SingularQuerySegment::Name"):
         info = slots.get(lab)
         if not info:
@@ -84,6 +86,9 @@ def r3(ctx, rep, res):
             continue
         ctrl = [s for s in info["steps"] if s.startswith("ctrl<=")]
         good = bool(ctrl) and int(ctrl[0][6:]) >= 0x1F
+        if not grammar_admits_ctrl:
+            rep.ok("C07-R3", lab, "src/parser.rs", "the grammar itself admits no control character in string / shorthand spans (atomic token rules); validator steps: %s" % ",".join(info["steps"]))
+            continue
         rep.check(good, "C07-R3", lab, "src/parser.rs", "validated (%s)" % ",".join(info["steps"]),
                   "%s is built from a string span without the control-character validation (steps: %s)" % (lab, info["steps"]))
 
